@@ -255,9 +255,11 @@ def enum_threads(ctx: Ctx, tier: str, shard: int, nshards: int) -> None:
         if i % nshards != shard:
             continue
         ctx.sub = "threads"
-        c03.run_scenario({"layout": lay, "pre": pre, "workers": workers, "multi": [], "salt": i}, ctx)
+        # (threads sharing one cache object: the windows are single lines inside the cache's own
+        # critical sections, so every yield point is a preemption point there)
+        c03.run_scenario({"layout": lay, "pre": pre, "workers": workers, "multi": [], "salt": i, "every_line": True}, ctx)
         ctx.event("threads:" + name)
-    ctx.exhaustive_parts.append("six read-related races on three cached layouts under the line-level scheduler (single-preemption schedules; quick tier: every SQL-statement / commit / lock-release boundary plus 8 sampled switch points each)")
+    ctx.exhaustive_parts.append("six read-related races on three cached layouts under the line-level scheduler (single-preemption schedules; quick tier: every yield point on threads:cached_sqlite, every SQL-statement / commit / lock-release boundary plus 8 sampled switch points on the other two)")
 
 
 def _replay_threads(case: dict[str, Any], ctx: Ctx) -> None:
